@@ -139,9 +139,22 @@ func vpC05_O4() {
 	a1 := vpBigBits("a1", 256)
 	sig, err := SignMessageBlock(sk, pk, []*big.Int{new(big.Int).Add(x, y), a1})
 	vpAssume(err == nil)
-	ms := []*big.Int{x, a1}
+	// (the block is shorter than the base list and the caller's slice has spare capacity:
+	// verification must be a pure check of both)
+	ms := make([]*big.Int, 2, 4)
+	ms[0], ms[1] = x, a1
+	full := []*big.Int{vpBigBits("f0", 255), vpBigBits("f1", 256), vpBigBits("f2", 256)}
+	fullSig, err := SignMessageBlock(sk, pk, full)
+	vpAssume(err == nil)
+	lastBase, lastBaseVal := pk.R[2], new(big.Int).Set(pk.R[2])
 	ks := &CLSignature{A: sig.A, E: sig.E, V: sig.V, KeyshareP: new(big.Int).Exp(pk.R[0], y, pk.N)}
 	vpAssert("a signature with its keyshare contribution verifies", ks.Verify(pk, ms))
+	vpAssert("verification leaves the public key and the message block as they were",
+		len(pk.R) == 3 && pk.R[2] == lastBase && pk.R[2].Cmp(lastBaseVal) == 0 && ms[:3][2] == nil && ms[0] == x && ms[1] == a1)
+	vpAssert("a valid signature over all bases still verifies after a keyshare signature was verified", fullSig.Verify(pk, full))
+	bare := &CLSignature{A: sig.A, E: sig.E, V: sig.V}
+	vpAssert("a keyshare signature without its contribution does not verify against the block extended by 1",
+		!bare.Verify(pk, []*big.Int{x, a1, big.NewInt(1)}))
 	r1, err := ks.Randomize(pk)
 	vpAssume(err == nil)
 	vpAssert("a randomised signature with keyshare contribution verifies", r1.Verify(pk, ms))
